@@ -216,6 +216,7 @@ def headline(text):
 
 def norm_msg(s):
     """Normalise a message for signatures: digits and quoted payloads collapse."""
+    s = re.sub(r'/dev/shm/tverif-[^/ ]*/', '', s)
     s = re.sub(r"'[^']*'", "'_'", s)
     s = re.sub(r'"[^"]*"', '"_"', s)
     s = re.sub(r'`[^`]*`', '`_`', s)
